@@ -99,6 +99,49 @@ def r1_draw_submit(a, tier):
         elif isinstance(n, ast.Call) and dotted(n.func) in ('next', 'list', 'tuple') and n.args and draws(n.args[0]):
             sites += 1
             rep.fail(fn.qualname, f'draw:{norm(n)}', f'`{norm(n)}` takes tasks from the iterator without submitting them', f'{fn.module.relpath}:{n.lineno}')
+    # a lazy view that DISCARDS tasks: islice(taskiter, start, stop[, step]) skips `start` tasks (and every step-1 after)
+    for n in walk_no_defs(fn.node):
+        if isinstance(n, ast.Call) and dotted(n.func).split('.')[-1] == 'islice' and n.args and draws(n.args[0]):
+            ok = len(n.args) == 2 and not n.keywords
+            rep.add({'view': norm(n), 'takes_a_prefix_only': ok})
+            if not ok:
+                rep.fail(fn.qualname, f'draw-discards:{len(n.args)}', f'`{norm(n)}` skips tasks of the iterator (islice with a start or step): the skipped '
+                         f'payloads never produce a result', f'{fn.module.relpath}:{n.lineno}')
+        if isinstance(n, ast.Call) and dotted(n.func).split('.')[-1] in ('dropwhile', 'filterfalse', 'filter', 'compress') and any(draws(x) for x in n.args):
+            rep.fail(fn.qualname, f'draw-discards:{dotted(n.func)}', f'`{norm(n)}` filters the task iterator', f'{fn.module.relpath}:{n.lineno}')
+    # refill: inside the completion loop, the draw that refills the window runs whenever the run is not stopped - a draw placed under
+    # `if <stop>.is_set()` (or behind any other condition) leaves the tasks beyond the first window unsubmitted
+    loops = [n for n in walk_no_defs(fn.node) if isinstance(n, ast.For) and isinstance(n.iter, ast.Call) and dotted(n.iter.func) == 'as_completed']
+    for loop in loops:
+        refills = [n for n in ast.walk(loop) if isinstance(n, ast.For) and n is not loop and draws(n.iter)]
+        rep.add({'completion_loop_refills': len(refills)})
+        if not refills:
+            rep.fail(fn.qualname, 'refill-missing', 'the completion loop never draws the next task: payloads beyond the first window are never submitted',
+                     f'{fn.module.relpath}:{loop.lineno}')
+        pm = a.resolver.parents(fn)
+        for r in refills:
+            conds = []
+            cur = r
+            while cur is not loop:
+                par = pm.get(id(cur))
+                if par is None:
+                    break
+                if isinstance(par, ast.If):
+                    conds.append((par.test, cur in par.body))
+                cur = par
+            bad = []
+            for test, in_body in conds:
+                t, neg = test, not in_body
+                while isinstance(t, ast.UnaryOp) and isinstance(t.op, ast.Not):
+                    t, neg = t.operand, not neg
+                t = through_locals(fn, t)
+                is_stop = isinstance(t, ast.Call) and isinstance(t.func, ast.Attribute) and t.func.attr == 'is_set'
+                if not (is_stop and neg):
+                    bad.append(norm(test) + ('' if in_body else ' (else branch)'))
+            rep.add({'refill': f'for {norm(r.target)} in {norm(r.iter)}', 'runs_unless_stopped': not bad, 'other_conditions': bad})
+            if bad:
+                rep.fail(fn.qualname, 'refill-condition', f'the refill `for {norm(r.target)} in {norm(r.iter)}` runs only under {bad}: when the run is not '
+                         f'stopped the next task is not drawn and the payloads beyond the first window never produce a result', f'{fn.module.relpath}:{r.lineno}')
     rep.add({'draw_sites': sites})
     return rep
 
@@ -387,4 +430,117 @@ def r6_fresh_run_state(a, tier):
     return rep
 
 
-RULES = [r1_draw_submit, r2_pop_yield, r3_snapshot, r4_same_worker, r5_capture, r6_fresh_run_state]
+def r7_dispatch(a, tier):
+    from ..paths import Executor, Out, Semantics
+    rep = RuleReport(
+        'C18.R7',
+        'one emission per run: on every path through parproc exactly one of its emitting statements (yield / yield from over the tasks) '
+        'runs - the single-task shortcut returns before the general paths - and a subscript of the task list with a constant index is '
+        'guarded by a test on its length that makes the index valid (an empty payload list yields nothing and raises nothing)',
+        floor=2,
+    )
+    fn = a.p.func('tatsu.parproc.parproc.parproc')
+
+    class Sem(Semantics):
+        def stmt(self, ex, f, node, state):
+            if f is fn and isinstance(node, ast.Expr) and isinstance(node.value, (ast.Yield, ast.YieldFrom)):
+                return state + 1
+            return state
+
+        def call(self, ex, f, node, state):
+            return [('next', state, None)]
+    outs = Executor(a.p, a.ct, a.resolver, Sem(), raises=a.raises).run(fn, 0)
+    counts = sorted({o.state for o in outs if o.kind in ('return', 'next')})
+    rep.add({'emissions_per_path': counts})
+    if any(c != 1 for c in counts) or not counts:
+        rep.fail(fn.qualname, f'dispatch:{counts}', f'parproc has paths with {counts} emitting statements; required exactly one on every path (more than one: every '
+                 f'payload is processed and reported twice; none: no result)', fn.loc)
+    # constant subscripts of the task list
+    lists = {n.targets[0].id for n in walk_no_defs(fn.node) if isinstance(n, ast.Assign) and isinstance(n.targets[0], ast.Name)
+             and isinstance(n.value, (ast.ListComp, ast.List))}
+    pm = a.resolver.parents(fn)
+    for n in walk_no_defs(fn.node):
+        if isinstance(n, ast.Subscript) and isinstance(n.value, ast.Name) and n.value.id in lists and isinstance(n.slice, ast.Constant) and isinstance(n.slice.value, int):
+            idx = n.slice.value
+            guard = None
+            cur = n
+            while cur is not None:
+                par = pm.get(id(cur))
+                if isinstance(par, ast.If) and cur in par.body:
+                    t = through_locals(fn, par.test)
+                    if isinstance(t, ast.Compare) and len(t.ops) == 1 and isinstance(t.left, ast.Call) and dotted(t.left.func) == 'len' \
+                            and norm(t.left.args[0]) == n.value.id and isinstance(t.comparators[0], ast.Constant):
+                        k = t.comparators[0].value
+                        op = t.ops[0]
+                        lo = k if isinstance(op, (ast.Eq, ast.GtE)) else k + 1 if isinstance(op, ast.Gt) else None
+                        if lo is not None and lo > idx >= -lo:
+                            guard = norm(t)
+                cur = par
+            rep.add({'subscript': norm(n), 'guard': guard})
+            if guard is None:
+                rep.fail(fn.qualname, f'dispatch:index:{norm(n)}', f'`{norm(n)}` is not guarded by a length test that makes the index valid: an empty payload '
+                         f'list raises IndexError instead of yielding nothing', f'{fn.module.relpath}:{n.lineno}')
+    return rep
+
+
+def r8_worker_contract(a, tier):
+    from ..minieval import Obj, Raised, Unsupported
+    from ..modelinterp import Hook, ModelInterp
+    rep = RuleReport(
+        'C18.R8',
+        'the worker function taskproc, interpreted with a scripted user function: the result carries the outcome when the function '
+        'returns; an exception is stored on the result and NOT raised when the payload captures it (raises() empty or naming its '
+        'type), raised when reraise is set or raises() names other types; a task that finds the run stopped reports an exception',
+        floor=5,
+    )
+    fn = a.p.func('tatsu.parproc.task.taskproc')
+
+    def result_cls(stop, payload, exception=None):
+        return Obj(stop=stop, payload=payload, exception=exception, outcome=None, runtime=None, linecount=None, memory=None)
+
+    def isinst(e, r):
+        if isinstance(e, Raised):
+            names = {'ValueError': ('ValueError', 'Exception'), 'KeyError': ('KeyError', 'LookupError', 'Exception')}.get(e.cls_name, (e.cls_name,))
+            return getattr(r, '__name__', str(r)) in names
+        return isinstance(e, r) if isinstance(r, type) else False
+
+    def run(stopped=False, raises_=(), reraise=False, fails=None):
+        def func(payload, *x, **k):
+            if fails:
+                raise Raised(fails, ast.Pass())
+            return 'OUT'
+        payload = Obj(raises=None, path='p')
+        stop = Obj()
+        task = Hook(None, stop=Hook(None, is_set=Hook(lambda: stopped), set=Hook(lambda: None)), func=Hook(func), payload=Hook(None, raises=Hook(lambda: raises_), path='p'),
+                   pickable=Hook(lambda o: ('PICKLED', o)), reraise=reraise, args=(), kwargs={})
+        it = ModelInterp(a, {'Result': Hook(result_cls), 'isinstance': Hook(isinst), 'memory_use': Hook(lambda: 0), 'getattr': Hook(lambda o, n, *d: d[0] if d else None),
+                             'sys': Hook(None, getrecursionlimit=Hook(lambda: 1000), setrecursionlimit=Hook(lambda n: None)),
+                             'time': Hook(None, thread_time=Hook(lambda: 0.0)), 'InterruptedError': InterruptedError})
+        try:
+            r = it.call_fn(fn, [task])
+            return r, None
+        except Raised as e:
+            return None, e.cls_name
+        except Unsupported as e:
+            raise AnalysisError(f'C18.R8: cannot interpret taskproc: {e}') from e
+
+    cases = [
+        ('the function returns', dict(), lambda r, x: x is None and r is not None and r.outcome == ('PICKLED', 'OUT') and r.exception is None),
+        ('ValueError, payload captures everything', dict(fails='ValueError'), lambda r, x: x is None and r is not None and isinstance(r.exception, Raised) and r.exception.cls_name == 'ValueError'),
+        ('ValueError, reraise set', dict(fails='ValueError', reraise=True), lambda r, x: x == 'ValueError'),
+        ('ValueError, raises() names ValueError', dict(fails='ValueError', raises_=(ValueError,)), lambda r, x: x is None and r is not None and r.exception is not None),
+        ('KeyError, raises() names ValueError', dict(fails='KeyError', raises_=(ValueError,)), lambda r, x: x == 'KeyError'),
+        ('the run is stopped', dict(stopped=True), lambda r, x: x is None and r is not None and r.exception is not None),
+    ]
+    for what, kw, good in cases:
+        r, raised = run(**kw)
+        ok = bool(good(r, raised))
+        rep.add({'case': what, 'raised': raised, 'result_exception': None if r is None else repr(getattr(r.exception, 'cls_name', r.exception)),
+                 'result_outcome': None if r is None else repr(r.outcome), 'ok': ok})
+        if not ok:
+            rep.fail(fn.qualname, f'worker:{what}', f'taskproc, {what}: raised {raised}, result exception '
+                     f'{None if r is None else getattr(r.exception, "cls_name", r.exception)!r}, outcome {None if r is None else r.outcome!r}', fn.loc)
+    return rep
+
+
+RULES = [r1_draw_submit, r2_pop_yield, r3_snapshot, r4_same_worker, r5_capture, r6_fresh_run_state, r7_dispatch, r8_worker_contract]
